@@ -10,6 +10,10 @@ UNITS = [dict(
     reach={'interrupts': ['end', 'before', 'during']},
     validate=[],
 )]
+import copy as _copy
+from props import C13 as _C13
+_w = _copy.deepcopy([u for u in _C13.UNITS if u['name'] == 'server'][0]); _w['name'] = 'server_writes'
+UNITS.append(_w)      # "writable-with-backlog sockets are eventually dispatched": the write path histories of C13 (interest == {read unless suspended} + {write iff backlog} after every step)
 BOUNDS = {
     'quick': '<= 3 timers with intervals in {1,2,3} ticks (coinciding due times), optional removal of one timer before run(), every activation may remove any timer (itself included), the loop is interrupted after 4 activations; 2 clients readable in one poll round (or one peer closed) whose callbacks remove themselves / the other client with its event pending; a listener with/without a pending connection (accepted or refused by the callback) and an establisher whose connect has/has not completed, then data for the accepted client; interrupt() before run, repeatedly, and from a second thread (every interleaving with <= 2 preemptions)',
     'thorough': 'interrupt after 7 activations',
